@@ -251,6 +251,13 @@ var SynCorpus = []*SynGrammar{
 			P("C", NT("D")),
 			P("D", Lit("b")), P("D"),
 		}},
+	{Name: "G09", Why: "a nullable nonterminal in the middle of a body, followed by two more symbols (FIRST of a string must stop at the first non-nullable symbol)",
+		Lex: stdLex,
+		Prods: []Prod{
+			P("D", NT("K"), NT("O"), Lit("x"), Lit(";")),
+			P("K", Lit("k")), P("K", Lit("k"), Lit("k")),
+			P("O", Lit("q")), P("O"),
+		}},
 	{Name: "G08", Why: "empty between terminals; mutual recursion",
 		Lex: stdLex,
 		Prods: []Prod{
@@ -335,6 +342,14 @@ var ConflictCorpus = []*SynGrammar{
 		Prods: []Prod{
 			P("S", NT("B"), Lit("z")), P("S", NT("A"), Lit("z")), P("S", NT("A"), Lit("y")),
 			P("A", Lit("a")), P("B", Lit("a")),
+		}},
+	{Name: "G20", Why: "reduce/reduce between an EMPTY production declared earlier and a non-empty one, on a terminal without shift",
+		Lex: stdLex, Flags: []string{"-a"},
+		Prods: []Prod{
+			P("S", NT("Y")), P("S", NT("X"), Lit("c"), Lit("c")),
+			P("Opt"),
+			P("Y", Lit("a"), NT("Opt"), Lit("c")),
+			P("X", Lit("a")),
 		}},
 	{Name: "G13", Why: "a shift competing with two reductions", Lex: stdLex, Flags: []string{"-a"},
 		Prods: []Prod{
